@@ -206,6 +206,26 @@ func main() {
 			}
 		}
 	})
+	// whole marker pieces as tokens: shapes such as "x-- -- a --" need 11 bytes,
+	// beyond the byte-wise bound, but only five tokens
+	tokAlpha := enum.Bytes("-- ", " --", "a", "\n", "-", " ", ">", "\r\n")
+	tokLen := 6
+	if r.Thorough() {
+		tokLen = 7
+	}
+	var tokEvals int64
+	enum.Strings(tokAlpha, tokLen, r.Workers(), func(w int, s []byte) {
+		atomic.AddInt64(&tokEvals, 1)
+		r.Watch(w, s)
+		vs := checkData(s)
+		r.WatchDone(w)
+		for _, v := range vs {
+			r.Violation(v.Key, v.What, v.Case)
+		}
+	})
+	evals += tokEvals
+	r.Set("marker_piece_token_strings", tokEvals)
+
 	// long lines: lengths that straddle the buffer sizes a line-oriented
 	// implementation might use, at the start, middle and end of a body
 	var longs int64
@@ -236,7 +256,7 @@ func main() {
 	r.Set("long_line_bodies", longs)
 	r.Set("evaluations", evals+longs)
 	r.Set("distinct_nontrivial", nontrivial+longs)
-	r.Set("rule", fmt.Sprintf("every byte string of length <= %d over {-,SP,a,>,LF,CR,0xff}, each once; plus bodies with one line of 4095..4097, 65534..65537, 131072 or 1048576 bytes (plain, unterminated, marker, quoted-looking, CRLF) at the start, middle or end; non-trivial = has \"-- \" at a line start, or a long line", maxLen))
+	r.Set("rule", fmt.Sprintf("every byte string of length <= %d over {-,SP,a,>,LF,CR,0xff}, each once; every string of <= 6 (thorough 7) tokens over {'-- ',' --',a,LF,-,SP,>,CRLF}; plus bodies with one line of 4095..4097, 65534..65537, 131072 or 1048576 bytes (plain, unterminated, marker, quoted-looking, CRLF) at the start, middle or end; non-trivial = has \"-- \" at a line start, or a long line", maxLen))
 	r.Set("needs_quote_true", needs)
 	r.Set("quote_accepted", quoted)
 	r.Set("max_len", maxLen)
